@@ -44,6 +44,21 @@ Theorem C01_numeric : forall (g : game (T:=Q)),
     (forall s, In s srf -> (0 <= gPhi g p s - p s <= q_thr)%Q).
 Proof. exact reach_numeric. Qed.
 
+(* the same, stated on what solve() returns: r_probs is that vector and r_it_reach the sweep count *)
+Theorem C01_numeric_solve : forall (g : game (T:=Q)),
+  wf_game qops g ->
+  (forall i, nth i (g_players g) PR = PR ->
+     nonneg_w (nth i (g_trans g) []) /\ (sumw (nth i (g_trans g) []) <= 1)%Q) ->
+  forall fuel prune r,
+  solve_fuel qops fuel g prune = Ok r ->
+  let p := fun j => nth j (r_probs r) 0%Q in
+  exists srf, reverse_dfs (tlg g) (g_finals g) = Ok srf /\
+    (forall j, (0 <= p j <= 1)%Q) /\
+    (forall j, (gx0 g j <= p j)%Q) /\
+    (forall j, (p j <= gV g (r_it_reach r * length srf) j)%Q) /\
+    (forall s, In s srf -> (0 <= gPhi g p s - p s <= q_thr)%Q).
+Proof. exact solve_probs_numeric. Qed.
+
 (* the finite-horizon values are non-decreasing in the horizon and stay in [0,1] *)
 Theorem C01_horizon_values_monotone : forall (g : game (T:=Q)),
   (forall i, nth i (g_players g) PR = PR ->
@@ -123,6 +138,7 @@ Print Assumptions C01_final_one.
 Print Assumptions C01_unreachable_zero.
 Print Assumptions C01_prune_independent.
 Print Assumptions C01_numeric.
+Print Assumptions C01_numeric_solve.
 Print Assumptions C01_horizon_values_monotone.
 Print Assumptions C01_terminates.
 Print Assumptions C01_within_threshold_refuted.
